@@ -40,6 +40,8 @@ type C09Peer struct {
 	TargetClosesFirst bool `json:"target_closes_first,omitempty"`
 	// StartMS: the peer connects this long after the others
 	StartMS int `json:"start_ms,omitempty"`
+	// Port80 (TwoPorts scenarios): the peer connects to the server's port 80
+	Port80 bool `json:"port80,omitempty"`
 }
 
 type C09Scenario struct {
@@ -51,6 +53,10 @@ type C09Scenario struct {
 	RedirDialMS int `json:"redir_dial_ms,omitempty"`
 	// NoAdmin: the server's configuration names no AdminUID
 	NoAdmin bool `json:"no_admin,omitempty"`
+	// TwoPorts: the server listens on :443 and :80 (ck-server's default binding)
+	// with one state, RedirAddr names a host without a port: each peer must reach
+	// the redirect host on the port it connected to itself
+	TwoPorts bool `json:"two_ports,omitempty"`
 }
 
 // c09Stagger spreads the peers' arrivals over a slow hand-over to the target.
@@ -90,6 +96,17 @@ func genC09Peer(g *Gen, kind string) C09Peer {
 
 func genC09(g *Gen) any {
 	sc := &C09Scenario{Seed: g.Rng.Uint64(), Partial: g.Bool(0.5)}
+	if g.Bool(0.1) {
+		sc.TwoPorts = true
+		kinds := []string{"http-get", "random", "cloak-unauth-uid", "cloak-bad-method", "http-get"}
+		for i := g.Int(2, 3); i > 0; i-- {
+			p := genC09Peer(g, kinds[g.Rng.IntN(len(kinds))])
+			p.Port80, p.StartMS = g.Bool(0.5), g.Pick(0, 0, 200, 2000)
+			sc.Peers = append(sc.Peers, p)
+		}
+		sc.NoAdmin = g.Bool(0.4)
+		return sc
+	}
 	n := g.Int(1, 3)
 	for i := 0; i < n; i++ {
 		sc.Peers = append(sc.Peers, genC09Peer(g, c09Kinds[g.Rng.IntN(len(c09Kinds))]))
@@ -251,7 +268,8 @@ func c09Stream(w *SrvWorld, p C09Peer, extraClients *[]c09Genuine) (s []byte, fi
 		s = hello(func(c *ClientParams) { c.UID = uid })
 		first = len(s)
 	case "cloak-bad-method":
-		s = hello(func(c *ClientParams) { c.Method = "nosuchproxy" })
+		m := []string{"nosuchproxy", "legacy"}[p.Arg%2]
+		s = hello(func(c *ClientParams) { c.Method = m })
 		first = len(s)
 	case "cloak-bad-method-live":
 		// the same UID and session id as a session that is live right now, but a
@@ -281,6 +299,10 @@ func c09Stream(w *SrvWorld, p C09Peer, extraClients *[]c09Genuine) (s []byte, fi
 // dialOrder[k] is the peer behind the k-th connection made to the server (nil: a legitimate client)
 var dialOrder []*c09Conn
 
+// c09ByContent: relayed connections are attributed to peers by what they carry
+// (two accept loops: the order of the server's tasks is not the dial order)
+var c09ByContent bool
+
 type c09Conn struct {
 	peer      C09Peer
 	stream    []byte
@@ -300,12 +322,21 @@ type c09Conn struct {
 func runC09(c *Ctx, scAny any) {
 	sc := scAny.(*C09Scenario)
 	c.Net.DefaultPartial = sc.Partial
-	w := NewSrvWorld(c, SrvParams{NBypass: 1, NoAdmin: sc.NoAdmin})
+	// the ProxyBook also names a method the server cannot serve (a network other
+	// than tcp/udp): to a peer it is an unknown method like any other
+	w := NewSrvWorld(c, SrvParams{NBypass: 1, NoAdmin: sc.NoAdmin, RedirNoPort: sc.TwoPorts, ProxyBook: map[string][]string{"shadowsocks": {"tcp", "10.0.0.3:8388"}, "legacy": {"unix", "/run/legacy.sock"}}})
 	defer w.Cleanup()
 	if sc.RedirDialMS > 0 {
 		c.Net.DialDelay[redirAddr] = time.Duration(sc.RedirDialMS) * time.Millisecond
 	}
 	simsync.Go("h:serve", func() { server.Serve(w.Front, w.Sta) })
+	c09ByContent = sc.TwoPorts
+	var redir80 *simnet.Listener
+	if sc.TwoPorts {
+		front80 := c.Net.Listen("10.0.0.2:80")
+		simsync.Go("h:serve80", func() { server.Serve(front80, w.Sta) })
+		redir80 = c.Net.Listen("10.0.0.4:80")
+	}
 	conns := make([]*c09Conn, len(sc.Peers))
 	var genuine []c09Genuine
 	for i, p := range sc.Peers {
@@ -322,6 +353,17 @@ func runC09(c *Ctx, scAny any) {
 			simsync.Go("h:target-conn", func() { c09Target(c, tc, conns) })
 		}
 	})
+	if redir80 != nil {
+		simsync.Go("h:target80", func() {
+			for {
+				tc, err := redir80.Accept()
+				if err != nil {
+					return
+				}
+				simsync.Go("h:target-conn", func() { c09Target(c, tc, conns) })
+			}
+		})
+	}
 	// the upstream proxy must never be contacted for these peers
 	upstreamHit := false
 	simsync.Go("h:upstream", func() {
@@ -376,7 +418,11 @@ func runC09(c *Ctx, scAny any) {
 				Sleep(time.Duration(cn.peer.StartMS) * time.Millisecond)
 			}
 			d := &simnet.Dialer{Net: c.Net, LocalIP: fmt.Sprintf("10.0.1.%d", i+1)}
-			pc, err := d.Dial("tcp", srvAddr)
+			addr := srvAddr
+			if cn.peer.Port80 {
+				addr = "10.0.0.2:80"
+			}
+			pc, err := d.Dial("tcp", addr)
 			if err != nil {
 				c.Fail("setup", "dial", "%v", err)
 				return
@@ -529,6 +575,37 @@ func c09Target(c *Ctx, tc net.Conn, conns []*c09Conn) {
 				fmt.Sscanf(tag[i+1:], "%d", &k)
 				if k < len(dialOrder) {
 					cn = dialOrder[k]
+				}
+			}
+			if c09ByContent {
+				cn = nil
+				var cands []*c09Conn
+				for _, x := range conns {
+					k := min(len(got), len(x.stream))
+					if !x.tgtSeen && k > 0 && bytes.Equal(got[:k], x.stream[:k]) {
+						cands = append(cands, x)
+					}
+				}
+				if len(cands) > 1 && err == nil {
+					continue // two peers begin alike: read on
+				}
+				for _, x := range cands {
+					// (of peers that begin alike, one that has sent that much)
+					if cn == nil || cn.sent < len(got) && x.sent >= len(got) {
+						cn = x
+					}
+				}
+				if cn != nil {
+					port, want := tc.LocalAddr().(*net.TCPAddr).Port, 443
+					if cn.peer.Port80 {
+						want = 80
+					}
+					if port != want {
+						c.Fail("relay", "wrong-target-port", "a peer (%s) that connected to the server's port %d was relayed to port %d of the redirect host (RedirAddr names no port: the peer's own port applies)", cn.peer.Kind, want, port)
+						tc.Close()
+						return
+					}
+					c.Probe("relayed_to_own_port")
 				}
 			}
 			if cn != nil {
